@@ -8,9 +8,18 @@ import Xsel.Parse
 
 namespace Xsel.Syntax
 
-/-- every rendered token is marked as adjacent to the previous one (only QName, `p:*`, `*:x` and
-    Number need it; at the level of tokens adjacency has no other meaning) -/
+/-- a rendered token that must directly follow the previous one: the `:` and the name or `*` after
+    it inside a QName, `p:*`, `*:x`, and the `.` and the fraction digits inside a Number (the parser
+    asks for adjacency exactly there) -/
 def T (t : Tok) : LTok := ⟨t, true⟩
+
+/-- every other rendered token: not adjacent to the previous one (the spelling writes a space before
+    it, see `Proofs/Lemmas/SpellRender.lean`) -/
+def U (t : Tok) : LTok := ⟨t, false⟩
+
+/-- a literal is written with double quotes iff it contains a single quote (the parser ignores the
+    kind of quote) -/
+def litTok (s : Chars) : Tok := .lit (s.contains '\'') s
 
 def opTok : BinOp → Tok
   | .or => .kw .or | .and => .kw .and
@@ -44,29 +53,29 @@ def level : Expr → Nat
   | .filt _ _ => 9
 
 def testToks : NodeTest → Toks
-  | .node => [T (.kw .node), T (.p .lparen), T (.p .rparen)]
-  | .text => [T (.kw .text), T (.p .lparen), T (.p .rparen)]
-  | .comment => [T (.kw .comment), T (.p .lparen), T (.p .rparen)]
-  | .pi => [T (.kw .pi), T (.p .lparen), T (.p .rparen)]
-  | .piTarget s => [T (.kw .pi), T (.p .lparen), T (.lit false s), T (.p .rparen)]
-  | .any => [T (.p .star)]
-  | .nsAny p => [T (.ncname p), T (.p .colon), T (.p .star)]
-  | .localAny l => [T (.p .star), T (.p .colon), T (.ncname l)]
-  | .qname p l => [T (.ncname p), T (.p .colon), T (.ncname l)]
-  | .name l => [T (.ncname l)]
+  | .node => [U (.kw .node), U (.p .lparen), U (.p .rparen)]
+  | .text => [U (.kw .text), U (.p .lparen), U (.p .rparen)]
+  | .comment => [U (.kw .comment), U (.p .lparen), U (.p .rparen)]
+  | .pi => [U (.kw .pi), U (.p .lparen), U (.p .rparen)]
+  | .piTarget s => [U (.kw .pi), U (.p .lparen), U (litTok s), U (.p .rparen)]
+  | .any => [U (.p .star)]
+  | .nsAny p => [U (.ncname p), T (.p .colon), T (.p .star)]
+  | .localAny l => [U (.p .star), T (.p .colon), T (.ncname l)]
+  | .qname p l => [U (.ncname p), T (.p .colon), T (.ncname l)]
+  | .name l => [U (.ncname l)]
 
 def fnToks (pfx : Option Chars) (name : Chars) : Toks :=
   match pfx with
-  | none => [T (.ncname name)]
-  | some p => [T (.ncname p), T (.p .colon), T (.ncname name)]
+  | none => [U (.ncname name)]
+  | some p => [U (.ncname p), T (.p .colon), T (.ncname name)]
 
 /-- the digits of a number literal (`numToStr` of a non-negative finite double is
     `Digits` or `Digits '.' Digits`) -/
 def numToks (n : Num) : Toks :=
   let s := numToStr n
   match s.dropWhile isDigit with
-  | [] => [T (.digits s)]
-  | _ :: fr => [T (.digits (s.takeWhile isDigit)), T (.p .dot), T (.digits fr)]
+  | [] => [U (.digits s)]
+  | _ :: fr => [U (.digits (s.takeWhile isDigit)), T (.p .dot), T (.digits fr)]
 
 def varTok (pfx : Option Chars) (name : Chars) : Tok :=
   match pfx with
@@ -76,38 +85,38 @@ def varTok (pfx : Option Chars) (name : Chars) : Tok :=
 /-- parentheses around the spelling `ts` of an expression of level `lv` where level `min` or tighter
     is expected -/
 def wrap (lv min : Nat) (ts : Toks) : Toks :=
-  if lv < min then T (.p .lparen) :: (ts ++ [T (.p .rparen)]) else ts
+  if lv < min then U (.p .lparen) :: (ts ++ [U (.p .rparen)]) else ts
 
 mutual
 def raw : Expr → Toks
-  | .bin op l r => wrap (level l) (opLevel op) (raw l) ++ T (opTok op) :: wrap (level r) (opLevel op + 1) (raw r)
-  | .neg e => T (.p .minus) :: wrap (level e) 6 (raw e)
+  | .bin op l r => wrap (level l) (opLevel op) (raw l) ++ U (opTok op) :: wrap (level r) (opLevel op + 1) (raw r)
+  | .neg e => U (.p .minus) :: wrap (level e) 6 (raw e)
   | .num n => numToks n
-  | .lit s => [T (.lit false s)]
-  | .var p n => [T (varTok p n)]
+  | .lit s => [U (litTok s)]
+  | .var p n => [U (varTok p n)]
   | .call base p n args =>
-    basePrefix base ++ fnToks p n ++ T (.p .lparen) :: renderArgs args
-  | .root => [T (.p .lparen), T (.p .slash), T (.p .rparen)]
-  | .ctx => [T (.p .dot)]
+    basePrefix base ++ fnToks p n ++ U (.p .lparen) :: renderArgs args
+  | .root => [U (.p .lparen), U (.p .slash), U (.p .rparen)]
+  | .ctx => [U (.p .dot)]
   | .step base ax t ps =>
-    basePrefix base ++ T (.kw (.axis ax)) :: T (.p .coloncolon) :: (testToks t ++ renderPreds ps)
-  | .filt b p => wrap (level b) 9 (raw b) ++ T (.p .lbrack) :: (wrap (level p) 0 (raw p) ++ [T (.p .rbrack)])
+    basePrefix base ++ U (.kw (.axis ax)) :: U (.p .coloncolon) :: (testToks t ++ renderPreds ps)
+  | .filt b p => wrap (level b) 9 (raw b) ++ U (.p .lbrack) :: (wrap (level p) 0 (raw p) ++ [U (.p .rbrack)])
 
 /-- the part of a path before its last step, with the separating `/` -/
 def basePrefix : Expr → Toks
   | .ctx => []
-  | .root => [T (.p .slash)]
-  | b => wrap (level b) 8 (raw b) ++ [T (.p .slash)]
+  | .root => [U (.p .slash)]
+  | b => wrap (level b) 8 (raw b) ++ [U (.p .slash)]
 
 def renderPreds : Exprs → Toks
   | .nil => []
-  | .cons p ps => T (.p .lbrack) :: (wrap (level p) 0 (raw p) ++ T (.p .rbrack) :: renderPreds ps)
+  | .cons p ps => U (.p .lbrack) :: (wrap (level p) 0 (raw p) ++ U (.p .rbrack) :: renderPreds ps)
 
 /-- arguments and the closing parenthesis -/
 def renderArgs : Exprs → Toks
-  | .nil => [T (.p .rparen)]
-  | .cons a .nil => wrap (level a) 0 (raw a) ++ [T (.p .rparen)]
-  | .cons a as => wrap (level a) 0 (raw a) ++ T (.p .comma) :: renderArgs as
+  | .nil => [U (.p .rparen)]
+  | .cons a .nil => wrap (level a) 0 (raw a) ++ [U (.p .rparen)]
+  | .cons a as => wrap (level a) 0 (raw a) ++ U (.p .comma) :: renderArgs as
 end
 
 /-- `e` where a production of level `min` or tighter is expected -/
@@ -116,7 +125,7 @@ def render (e : Expr) (min : Nat) : Toks := wrap (level e) min (raw e)
 /-- the whole expression; the root path on its own is `/` (as an operand it is written `(/)`,
     because XPath reads a name or `*` after `/` as a step) -/
 def renderTop : Expr → Toks
-  | .root => [T (.p .slash)]
+  | .root => [U (.p .slash)]
   | e => render e 0
 
 /-! ### trees that have a canonical spelling -/
